@@ -40,6 +40,7 @@ def stepFind (toks : List String) (impl : String) : Res :=
     ++ (if total + 103 > 1280 then ["fits_one_packet"] else [])
     ++ (if !sortedLogB sorted then ["nondecreasing_logdist"] else [])
     ++ (if !closestOk then ["closest_from_table"] else [])
+    ++ (if stored.isNone && !sortedLogB (res.filterMap fun i => tab.find? (·.id == i)) then ["reply_nondecreasing_logdist"] else [])
     ++ (if stored.isNone && res.contains asker && asker != 0 then ["never_the_asker"] else [])
     ++ (if stored.isNone && res.any (fun i => !(tab.any (·.id == i))) then ["only_table_records"] else [])
     ++ (if stored.isSome && (kv it "raw") != "" && kv it "same" != "1" then ["inline_bytes_equal_stored"] else [])
